@@ -185,6 +185,7 @@ func runC14(c *mon.Ctx) {
 			other := genScenario(sr, ver, 2) // another room, for wrong-room faults
 			c14StateResponses(c, sr, sc, other)
 			c14SendJoin(c, sr, sc)
+			c14SendJoinRedactedPowerLevels(c, sr, sc)
 			c14AuthChain(c, sr, sc)
 			c14AuthAtState(c, sr, sc)
 			c14Load(c, sr, sc)
@@ -615,10 +616,53 @@ func c14SendJoin(c *mon.Ctx, r *gen.Rand, sc *simScenario) {
 				}
 				variants = append(variants, variant{"state-without-" + p.Type(), rest, moved})
 			}
+			// the state lists a hash-broken copy of an event the join depends on (it parses as the redacted form, same ID,
+			// signatures valid) while the intact event is among the auth events: the join's own auth events are the intact
+			// ones - both arrived with verified signatures, the intact one stands for the event - and the returned state
+			// is what it is, redacted copy included
+			for _, p := range gen.Shuffled(r, state) {
+				if len(variants) >= 5 {
+					break
+				}
+				if !needed[gmsl.StateKeyTuple{EventType: p.Type(), StateKey: *p.StateKey()}] || (p.Type() != "m.room.power_levels" && p.Type() != "m.room.create" && p.Type() != "m.room.join_rules") {
+					continue
+				}
+				tv := ref.MustParse(p.JSON())
+				tv.Get("content").Set("zz_added_after_signing", ref.I(1))
+				bp, err := s.impl.NewEventFromUntrustedJSON(gen.Plain().Bytes(tv))
+				if err != nil || !bp.Redacted() || bp.EventID() != p.EventID() {
+					continue
+				}
+				var st2 []gmsl.PDU
+				for _, q := range state {
+					if q == p {
+						st2 = append(st2, bp)
+					} else {
+						st2 = append(st2, q)
+					}
+				}
+				au2 := append([]gmsl.PDU{}, auth...)
+				have := false
+				for _, q := range auth {
+					if q.EventID() == p.EventID() {
+						have = true
+					}
+				}
+				if !have {
+					au2 = append(au2, p)
+				}
+				variants = append(variants, variant{"state-holds-redacted-copy-of-" + p.Type(), st2, au2})
+			}
 			for _, v := range variants {
 				state, auth, label := v.state, v.auth, v.label
 				var resp rawResp
 				for _, p := range state {
+					if p.Redacted() {
+						tv := ref.MustParse(s.all[p.EventID()].JSON())
+						tv.Get("content").Set("zz_added_after_signing", ref.I(1))
+						resp.state = append(resp.state, gen.Plain().Bytes(tv))
+						continue
+					}
 					resp.state = append(resp.state, p.JSON())
 				}
 				for _, p := range auth {
@@ -627,7 +671,9 @@ func c14SendJoin(c *mon.Ctx, r *gen.Rand, sc *simScenario) {
 				var own []gmsl.PDU
 				inResp := map[string]gmsl.PDU{}
 				for _, p := range append(append([]gmsl.PDU{}, state...), auth...) {
-					inResp[p.EventID()] = p
+					if prev, ok := inResp[p.EventID()]; !ok || (prev.Redacted() && !p.Redacted()) {
+						inResp[p.EventID()] = p
+					}
 				}
 				for _, a := range join.AuthEventIDs() {
 					if p, ok := inResp[a]; ok {
@@ -670,6 +716,99 @@ func c14SendJoin(c *mon.Ctx, r *gen.Rand, sc *simScenario) {
 				})
 			}
 		}
+	}
+}
+
+// c14SendJoinRedactedPowerLevels: a restricted join authorised via a user who lacks the invite level. The resident
+// sends the intact power-levels event among the auth events and, in the state, a copy with a broken content hash:
+// that copy parses as the redacted event, which in the redaction algorithms before v11 has lost "invite" (default 0).
+// The join's auth events are the events that arrived intact: it is not allowed by them, whatever the state says.
+func c14SendJoinRedactedPowerLevels(c *mon.Ctx, r *gen.Rand, sc *simScenario) {
+	s := sc.s
+	if !s.t.Restricted || s.t.Redaction >= 5 {
+		return
+	}
+	b := sc.trunk.clone()
+	creator := s.users[0]
+	var via string
+	for _, u := range s.users[1:] {
+		if s.membership(b, u) == "join" {
+			via = u
+		}
+	}
+	if via == "" {
+		return
+	}
+	users := ref.O(creator, ref.I(100))
+	if _, ok := s.propose(b, "m.room.power_levels", strp(""), creator, ref.O("users", users, "invite", ref.I(50), "state_default", ref.I(50), "users_default", ref.I(0)), false); !ok {
+		return
+	}
+	if _, ok := s.propose(b, "m.room.join_rules", strp(""), creator, ref.O("join_rule", ref.S("restricted"), "allow", ref.A(ref.O("type", ref.S("m.room_membership"), "room_id", ref.S("!allowed:origin.example")))), false); !ok {
+		return
+	}
+	joiner := "@latecomer:" + serverOf(s.users[2])
+	eb := s.impl.NewEventBuilderFromProtoEvent(&gmsl.ProtoEvent{SenderID: joiner, RoomID: s.roomID, Type: "m.room.member", StateKey: strp(joiner), PrevEvents: []string{b.tip}, Depth: b.depth + 1,
+		Content: []byte(fmt.Sprintf(`{"membership":"join","join_authorised_via_users_server":%q}`, via))})
+	if err := eb.AddAuthEvents(s.provider(b)); err != nil {
+		return
+	}
+	jid := serverIdentity(serverOf(joiner))
+	join, err := eb.Build(baseTime, spec.ServerName(jid.Server), gmsl.KeyID(jid.KeyID), jid.Priv)
+	if err != nil {
+		return
+	}
+	if vid := serverIdentity(serverOf(via)); vid.Server != jid.Server {
+		join = join.Sign(vid.Server, gmsl.KeyID(vid.KeyID), vid.Priv)
+	}
+	state := b.list()
+	auth := authClosure(s.all, state)
+	pl := b.state[stKey{"m.room.power_levels", ""}]
+	if allowedBy(join, state) {
+		return // the authoriser can invite after all
+	}
+	tv := ref.MustParse(pl.JSON())
+	tv.Get("content").Set("zz_added_after_signing", ref.I(1))
+	broken := gen.Plain().Bytes(tv)
+	bp, err := s.impl.NewEventFromUntrustedJSON(broken)
+	if err != nil || !bp.Redacted() || bp.EventID() != pl.EventID() {
+		return
+	}
+	for _, order := range []string{"intact-among-auth-events", "intact-among-auth-events-listed-last"} {
+		var resp rawResp
+		for _, p := range state {
+			if p == pl {
+				resp.state = append(resp.state, broken)
+			} else {
+				resp.state = append(resp.state, p.JSON())
+			}
+		}
+		for _, p := range auth {
+			if p.EventID() != pl.EventID() {
+				resp.auth = append(resp.auth, p.JSON())
+			}
+		}
+		if order == "intact-among-auth-events" {
+			resp.auth = append(gmsl.EventJSONs{pl.JSON()}, resp.auth...)
+		} else {
+			resp.auth = append(resp.auth, pl.JSON())
+		}
+		c.Case("send-join:redacted-power-levels-in-state:"+string(s.ver), map[string]any{"version": s.ver, "authoriser": via, "order": order}, func() {
+			c.Nontrivial(fmt.Sprintf("%s|sj-redacted-pl|%s|%s", s.ver, join.EventID(), order))
+			var asked []string
+			var err error
+			site, msg, pan := mon.Guard(func() {
+				_, err = gmsl.CheckSendJoinResponse(context.Background(), s.ver, resp, c14ring, join, mkProvider(provReturns, s.all, &asked), userIDForSender)
+			})
+			if pan {
+				c.Failf("sendjoin:panic:"+site, "CheckSendJoinResponse panics: %s", msg)
+				return
+			}
+			c.Count("send_join_checks")
+			c.Count("send_join_with_redacted_power_levels_in_state")
+			if err == nil {
+				c.Failf("sendjoin:accepts-join:own=false:redacted-copy-stood-for-the-auth-event", "CheckSendJoinResponse accepts a restricted join authorised via %s, who lacks the invite level of the power-levels event %s that arrived intact among the auth events; the state lists a hash-broken copy of that event, whose redacted form has no invite level (%s)", via, pl.EventID(), order)
+			}
+		})
 	}
 }
 
